@@ -33,6 +33,8 @@ import (
 	"verif.local/vfkit"
 )
 
+const c11FindingProxyFallback = "C11-proxy-apiversions-no-v0-fallback"
+
 type c11Backend struct{}
 
 func (c11Backend) Handle(ctx context.Context, header *protocol.RequestHeader, req kmsg.Request) ([]byte, error) {
@@ -157,6 +159,7 @@ func TestVF_C11_Proxy(t *testing.T) {
 		Groups:  []string{"g1", "g2"},
 		Members: []string{"", "m-1"},
 	}
+	knownFallback := vfkit.Known(c11FindingProxyFallback)
 	inconclusive := ""
 	defer func() {
 		if inconclusive != "" {
@@ -186,6 +189,13 @@ func TestVF_C11_Proxy(t *testing.T) {
 				req.Acks = 1
 				pr.Acks0 = false
 				st.Class("steered:acks0-empty-produce")
+			}
+			if r := tb.Ranges[18]; knownFallback && pr.Key == 18 && pr.Version > r[1] {
+				// listed finding: the proxy answers ApiVersions above its max in the requested
+				// version's layout with error 0 instead of the v0 UNSUPPORTED_VERSION reply
+				st.ExcludedCase(c11FindingProxyFallback)
+				pr.Version, pr.Class, pr.Advertised = r[1], "advertised", true
+				pr.Req.SetVersion(pr.Version)
 			}
 			pr.Encode()
 			out := vfc11kit.Exchange(conn, pr, 30*time.Second)
@@ -234,6 +244,38 @@ func TestVF_C11_Proxy(t *testing.T) {
 	if inconclusive != "" {
 		t.Fatalf("inconclusive: %s", inconclusive)
 	}
+}
+
+// TestVF_C11_ProxyWitness replays the witness of the listed proxy finding through the real
+// proxy code: an ApiVersions v5 request (one above the advertised max v4).
+func TestVF_C11_ProxyWitness(t *testing.T) {
+	st := vfkit.NewStats("C11", "proxy-witness")
+	defer st.Flush()
+	st.Eval()
+	tb := vfc11kit.NewTable(generateProxyApiVersions())
+	p := &proxy{apiVersions: generateProxyApiVersions(), logger: slog.New(slog.NewTextHandler(io.Discard, nil))}
+	max := tb.Ranges[18][1]
+	req := kmsg.NewPtrApiVersionsRequest()
+	req.SetVersion(max + 1)
+	pr := &vfc11kit.Probe{Key: 18, Version: max + 1, Class: "apiversions-above-max", Req: req, Corr: 77, ClientID: "vf-witness"}
+	cid := pr.ClientID
+	reply, err := p.handleApiVersions(&protocol.RequestHeader{APIKey: 18, APIVersion: pr.Version, CorrelationID: pr.Corr, ClientID: &cid})
+	msg := ""
+	if err != nil {
+		msg = "handleApiVersions failed: " + err.Error()
+	} else {
+		msg, _ = vfc11kit.JudgeReply(pr, tb, reply)
+	}
+	what := fmt.Sprintf("proxy, ApiVersions v%d (advertised max v%d): ", pr.Version, max)
+	if msg != "" {
+		what += msg
+	} else {
+		what += "answered with the v0 UNSUPPORTED_VERSION fallback"
+	}
+	st.KnownResult(c11FindingProxyFallback, msg != "", what)
+	st.NonTrivial("proxy-witness", msg != "")
+	st.Sample(map[string]any{"result": what, "reply_hex": fmt.Sprintf("%x", c11Clip(reply))})
+	t.Log(what)
 }
 
 func c11Clip(b []byte) []byte {
